@@ -73,7 +73,7 @@ def cases(tier):
             t = {"k": "ref", "n": base, "occ": {"min": 0, "max": "unbounded", "nillable": True}}
         m = {"name": "m0", "args": [["a", t]], "ret": [t], "style": "wrapped"}
         poly = draw(st.sampled_from([True, True, False]))
-        vg = values.ValueGen(U, special_floats=False, poly=True)
+        vg = values.ValueGen(U, special_floats=False, poly=True, nil_items=True)
         arg = draw(vg.value(t).filter(lambda v: v is not None))
         ret = draw(vg.value(t).filter(lambda v: v is not None))
         return {"U": U, "m": m, "args": [arg], "rets": [ret], "prot": prot, "poly": poly,
